@@ -103,13 +103,61 @@ def unit_doc(a):
     return stats
 
 
+ALPHA = ['"', "`", "\\", " ", "x"]
+
+
+def check_small(case, stats):
+    """one doc string whose media type / single content line is ANY short string over quote, backtick, backslash, blank, letter
+    (so: lines that start with either delimiter, partial and over-long delimiters, every escape pattern); oracle = reference parser"""
+    delim, ind, media, line = case["delim"], case["indent"], case["media"], case["line"]
+    text = "Feature: f\n Scenario: s\n  Given x\n%s%s%s\n%s\n%s%s\n  And y\n" % (ind, delim, media, line, ind, delim)
+    stats.case(text, line.lstrip().startswith(('"', "`", "\\")) or bool(media.strip()), sample={"text": text}, labels=[delim, "media" if media else "line"])
+    real = gh.parse(text)
+    ref = ref_parse(text)
+    if ref.accepted != (real[0] == "ok"):
+        raise Violation(case, "document is %s by the reference but the parser %s\n%s" % ("accepted" if ref.accepted else "rejected %r" % (ref.errors[:2],),
+                                                                                         "accepts it" if real[0] == "ok" else "rejects it: %r" % (real[1][:2],), text))
+    if ref.accepted and real[1] != ref.ast:
+        raise Violation(case, "AST differs from the reference, %s\n%s" % (diff_text(real[1], ref.ast, "parser", "reference"), text))
+    if not ref.accepted and real[1] != ref.errors:
+        raise Violation(case, "errors %r, reference %r\n%s" % (real[1][:3], ref.errors[:3], text))
+
+
+def unit_small(a):
+    import itertools
+    stats = Stats()
+
+    def gen():
+        n = 0
+        for L in range(0, a["maxlen"] + 1):
+            for tup in itertools.product(ALPHA, repeat=L):
+                w = "".join(tup)
+                for delim in ('"""', "```"):
+                    for ind in ("   ", ""):
+                        n += 1
+                        if n % a["nshards"] != a["shard"]:
+                            continue
+                        yield {"sub": "small", "delim": delim, "indent": ind, "media": "", "line": "   " + w}
+                        if L <= a["maxlen"] - 1:
+                            yield {"sub": "small", "delim": delim, "indent": ind, "media": w, "line": "   content"}
+                            yield {"sub": "small", "delim": delim, "indent": ind, "media": "", "line": w}
+    from vlib.common import sweep
+    sweep(stats, gen(), check_small)
+    return stats
+
+
 def replay(case, stats):
+    if case.get("sub") == "small":
+        return check_small(case, stats)
     return check_doc(case, stats)
 
 
 def run(ctx):
     q = ctx.quick
     ctx.units("docstring-documents", unit_doc, [{"n": 750 if q else 7000, "seed": ctx.seed, "shard": i} for i in range(8 if q else 16)], procs=16)
+    ctx.units("small-lines-exhaustive", unit_small, [{"maxlen": 6 if q else 8, "shard": i, "nshards": 16} for i in range(16)], procs=16)
+    ctx.exhaustive = False
+    ctx.extra["exhaustive_part"] = "every media type and every single content line of length <= %d over quote, backtick, backslash, blank, letter, for both delimiters at two indentations" % (6 if q else 8)
     ctx.rule = ("documents whose background / scenario / outline steps carry doc strings: both delimiters, any indentation relation between delimiter and "
                 "content (spaces, tabs, exotic blanks), media type none/word/with blanks/starting with a quote, content lines drawn from arbitrary text and every "
                 "kind of Gherkin-looking line (keywords, tags with blanks, comments, language headers, table rows, blank lines, the other delimiter, escaped and "
